@@ -370,7 +370,21 @@ fn history_api(v: &J) -> Result<J, String> {
     let mut pset = match v.get("init_json") {
         Some(j) => match api::PolicySet::from_json_value(j.clone()) {
             Ok(p) => p,
-            Err(e) => return Ok(json!({"init_error": format!("{e:?}").chars().take(300).collect::<String>()})),
+            Err(e) => {
+                let d = format!("{e:?}");
+                let class = if d.contains("Occupied") || d.contains("AlreadyDefined") {
+                    "occupied".to_string()
+                } else if d.contains("ArityError") {
+                    "arity".to_string()
+                } else if d.contains("NoSuchTemplate") {
+                    "no_such_template".to_string()
+                } else if d.contains("PolicyIdConflict") {
+                    "id_conflict".to_string()
+                } else {
+                    format!("from_json:{}", d.chars().take(200).collect::<String>())
+                };
+                return Ok(json!({"init_error": class}));
+            }
         },
         None => api::PolicySet::new(),
     };
